@@ -105,7 +105,7 @@ def _bad(kind, X, y, w, data_kind):
     return Xb, yb, wb
 
 
-BAD_KINDS = ["nan", "ylen", "few", "wlen", "X1d", "empty", "inf-y", "wrongtype", "none-y", "y-column", "X-fortran", "X-float32", "w-int", "X-readonly", "X-sparse-negative", "X-sparse"]
+BAD_KINDS = ["nan", "ylen", "few", "wlen", "X1d", "empty", "inf-y", "wrongtype", "none-y", "y-column", "X-fortran", "X-float32", "w-int", "X-readonly", "X-sparse-negative", "X-sparse", "bad-init"]
 
 
 def _call_fit(entry, est, X, y, w, facts):
@@ -214,6 +214,21 @@ def check_history(case):
             if last_failed:
                 fail_then_ok = True
             last_failed = False
+        elif op[0] == "bad" and op[1] == "bad-init":
+            # a configuration mistake the estimator only discovers inside fit (initial centres of the wrong width): the fit fails,
+            # the caller's table is what it was, the mistake is corrected and the next fit is an ordinary fit
+            if not (hasattr(est, "init") and isinstance(X, np.ndarray) and X.ndim == 2 and hasattr(est, "n_clusters")):
+                continue
+            good_init = est.init
+            est.set_params(init=np.zeros((int(est.n_clusters), X.shape[1] + 1)))
+            np.random.seed(case["seed"])
+            err = _call_fit(entry, est, X, y, w, dict(facts, bad=op[1]))
+            est.set_params(init=good_init)
+            if err is not None:
+                n_fail += 1
+                last_failed = True
+                kinds.add(op[1])
+                fitted = False if not _is_fitted(entry, est, data, X, y) else fitted
         elif op[0] == "bad":
             bad = _bad(op[1], X, y, w, data["kind"])
             if bad is None:
